@@ -653,6 +653,8 @@ PROPS["C12"] = dict(
         K("uci", "c12_uci_reader_inverts_lan", desc="the UCI move-token reader (closure body extracted verbatim from Client::exec) "
           "applied to the coordinate text of any move value returns the query with exactly that origin, destination and "
           "promotion, which matches the move", functions=["Client::exec move-token closure (extracted)"], timeout=1500),
+        K("c12", "c12_moveset_find_contract", kind="bounded", bound="move lists of <= 3 arbitrary moves", desc="MoveSet::find(query): the first move of the list the query matches, "
+          "with its own successor; None exactly when no move matches", functions=["MoveSet::find"], timeout=2400),
         K("uci", "c12_uci_bestmove_line_contract", desc="the `bestmove` line of the UCI writer thread (statement extracted verbatim from Search::spawn, "
           "println! bound to a buffer): for every move value it prints exactly `bestmove ` + origin + destination + lower-case promotion letter + "
           "newline -- the text the UCI move-token reader maps back to that move", functions=["Search::spawn writer closure, bestmove statement (extracted)"],
